@@ -31,6 +31,9 @@ def embed(env, Q, inner, pos):
         return Q.from_(o).select(o.k).where((o.k == 1) | ((o.j == 2) & (o.k == inner)))
     if pos == "in-not":
         return Q.from_(o).select(o.k).where(o.k.isin(inner).negate() & ~(o.j == 2))
+    if pos == "cmp-not":
+        from pypika_tortoise.terms import Not
+        return Q.from_(o).select(o.k).where(Not(o.k == inner))
     if pos == "join-on-operand":
         t2 = P.Table("ot2")
         return Q.from_(o).join(t2).on((o.k == t2.k) & o.j.isin(inner)).select(o.k)
